@@ -1,6 +1,7 @@
 package chain
 
 import (
+	"bytes"
 	"math"
 	"crypto/ecdsa"
 	"fmt"
@@ -77,6 +78,9 @@ type TxMeta struct {
 	OrigKind string         // for redeliveries: kind of the original transaction
 	Dup      bool           // bytes identical to an earlier delivered tx
 	Malleated bool
+	HighS    bool    // single signature carries n-S (harness fault mode 2 or an odd number of S flips)
+	Reenc    bool    // bytes re-encoded non-canonically (length prefix / trailing byte)
+	Base     *TxMeta `json:"-"` // the harness-built transaction these bytes derive from (nil: itself)
 	Garbage  bool
 }
 
@@ -87,6 +91,7 @@ type View struct {
 	NAcct    int
 	Chain    types.ChainID
 	NonceAdd map[types.Address]uint64
+	MsEdit   map[types.Address]*types.Multisig // multisig definitions edited by accepted transactions of this block
 	Log      []*TxMeta // all delivered txs so far (for redelivery)
 	NVal     int
 	Issued   []*IssuedCheck
@@ -412,9 +417,37 @@ func (v *View) Resolve(op Op) *TxMeta {
 		case "redeliver":
 			m.Dup = true
 		case "malleate":
+			base := ref.Base
+			if base == nil {
+				base = ref
+			}
 			m.Bytes = malleate(ref.Bytes, op.Mut)
+			m.Base = base
 			m.Malleated = true
 			m.SigOK = false // unknown: any acceptance of a re-encoding is judged by C04/C26
+			switch {
+			case bytes.Equal(m.Bytes, ref.Bytes):
+				// nothing to flip (multisig) or nothing to re-encode: a plain redelivery
+				m.Malleated, m.SigOK, m.Dup = ref.Malleated, ref.SigOK, true
+			case op.Mut%4 < 2:
+				m.HighS = !ref.HighS
+			default:
+				m.Reenc = true
+			}
+			if !m.Dup && !m.HighS && !m.Reenc && !ref.Garbage && (base.SigMode == 0 || base.SigMode == 2) {
+				// flipped back into the canonical low-S form of what the harness signed: this IS the
+				// properly signed transaction (of a fault-mode-2 original) or a redelivery of it
+				keepOp, first, orig := m.Op, m.FirstCode, m.OrigKind
+				*m = *base
+				m.Op, m.Base, m.FirstCode, m.OrigKind = keepOp, base, first, orig
+				m.Bytes = malleate(ref.Bytes, op.Mut)
+				m.Malleated, m.HighS, m.Reenc = false, false, false
+				if base.SigMode == 2 {
+					m.SigMode, m.SigOK, m.Signers = 0, true, []types.Address{base.Sender}
+				} else {
+					m.Dup = true
+				}
+			}
 		case "mutate":
 			b := append([]byte{}, ref.Bytes...)
 			if len(b) > 0 {
@@ -443,6 +476,9 @@ func (v *View) Resolve(op Op) *TxMeta {
 		l := v.multisigList()
 		sender = l[mod(int64(op.MS.Addr), len(l))]
 		ms = v.S.Multisig[sender]
+		if e := v.MsEdit[sender]; e != nil {
+			ms = e
+		}
 		signKeys = nil
 		for _, s := range op.MS.Signers {
 			signKeys = append(signKeys, Acct(mod(int64(s), v.NAcct+3)).Priv)
@@ -770,6 +806,59 @@ func (v *View) Resolve(op Op) *TxMeta {
 			}
 		}
 		typ, data = transaction.TypeAddLimitOrder, transaction.AddLimitOrderData{CoinToSell: c0, ValueToSell: sellv, CoinToBuy: c1, ValueToBuy: buyv}
+	case "dustorder":
+		// prefer a pool whose reserves are equal: an order selling x for x sits exactly at the pool price
+		c0, c1 := v.pool(op.x(0))
+		var eq []*types.Pool
+		for _, p := range v.S.Pools {
+			if p.Reserve0 == p.Reserve1 {
+				eq = append(eq, p)
+			}
+		}
+		sellv := op.v(0).resolve(bal(c0))
+		buyv := new(big.Int).Set(sellv)
+		if len(eq) > 0 {
+			p := eq[mod(op.x(0), len(eq))]
+			c0, c1 = types.CoinID(p.Coin0), types.CoinID(p.Coin1)
+			if op.x(1)%2 == 1 {
+				c0, c1 = c1, c0
+			}
+		} else {
+			for _, p := range v.S.Pools {
+				r0, r1 := bi(p.Reserve0), bi(p.Reserve1)
+				if types.CoinID(p.Coin0) == c1 && types.CoinID(p.Coin1) == c0 {
+					r0, r1 = r1, r0
+				} else if !(types.CoinID(p.Coin0) == c0 && types.CoinID(p.Coin1) == c1) {
+					continue
+				}
+				if r0.Sign() > 0 {
+					buyv = new(big.Int).Div(new(big.Int).Mul(sellv, r1), r0)
+					buyv.Add(buyv, big.NewInt(1))
+				}
+			}
+		}
+		typ, data = transaction.TypeAddLimitOrder, transaction.AddLimitOrderData{CoinToSell: c0, ValueToSell: sellv, CoinToBuy: c1, ValueToBuy: buyv}
+	case "fillorder":
+		// a taker sells, through the order's own pool, a fraction or a little more of what an order wants
+		var sellC, buyC types.CoinID
+		want := big.NewInt(1e10)
+		if ids := v.orderIDs(); len(ids) > 0 {
+			oid := ids[mod(op.x(0), len(ids))]
+			for _, p := range v.S.Pools {
+				for _, o := range p.Orders {
+					if o.ID == oid {
+						if o.IsSale { // maker sells coin1 for coin0
+							sellC, buyC, want = types.CoinID(p.Coin0), types.CoinID(p.Coin1), bi(o.Volume0)
+						} else {
+							sellC, buyC, want = types.CoinID(p.Coin1), types.CoinID(p.Coin0), bi(o.Volume1)
+						}
+					}
+				}
+			}
+		} else {
+			sellC, buyC = v.pool(op.x(0))
+		}
+		typ, data = transaction.TypeSellSwapPool, transaction.SellSwapPoolDataV260{Coins: []types.CoinID{sellC, buyC}, ValueToSell: op.v(0).resolve(want), MinimumValueToBuy: big.NewInt(0)}
 	case "remorder":
 		ids := v.orderIDs()
 		id := uint32(mod(op.x(0), 1<<20))
@@ -939,6 +1028,7 @@ func (v *View) Resolve(op Op) *TxMeta {
 				panic(err)
 			}
 			if op.SM == 2 {
+				m.HighS = true
 				n := crypto.S256().Params().N
 				sig.S = new(big.Int).Sub(n, sig.S)
 				if sig.V.Int64() == 27 {
